@@ -109,6 +109,8 @@ def joinv(a: Optional[Obj], b: Optional[Obj], _d=0) -> Optional[Obj]:
         o = Obj(a.kind)
         o.elem = joinv(a.elem, b.elem, _d + 1)
         o.keyt = a.keyt | b.keyt
+        if a.kind == "list" and a.val == b.val == "lines":
+            o.val = "lines"
         return o
     if a.kind == b.kind == "tuple" and len(a.items) == len(b.items):
         o = Obj("tuple")
@@ -234,8 +236,57 @@ class HeapInterp:
                     for e2 in outs:
                         self._merge_env(env, e2)
                 return all_term
+            if isinstance(st, ast.If) and i + 1 < len(body) and self._split_depth < 3 and self._selects_constant(st, env):
+                # an if/elif chain that picks a constant (key = CHG / key = RAD / ...) for the statements after it:
+                # run the rest of the block once per branch so that the constant stays tied to the branch's condition
+                return self._split_if(st, body[i + 1:], env, fr, pc)
             if self.stmt(st, env, fr, pc):
                 return True
+        return False
+
+    _split_depth = 0
+
+    def _selects_constant(self, st: ast.If, env) -> bool:
+        per_branch = []
+        cur = st
+        while True:
+            per_branch.append(cur.body)
+            if len(cur.orelse) == 1 and isinstance(cur.orelse[0], ast.If):
+                cur = cur.orelse[0]
+                continue
+            if cur.orelse:
+                per_branch.append(cur.orelse)
+            break
+        count: dict[str, int] = {}
+        for b in per_branch:
+            for x in b:
+                if isinstance(x, ast.Assign) and len(x.targets) == 1 and isinstance(x.targets[0], ast.Name) and \
+                        (isinstance(x.value, ast.Constant) or (isinstance(x.value, ast.Name) and x.value.id not in env)):
+                    count[x.targets[0].id] = count.get(x.targets[0].id, 0) + 1
+        return any(c >= 2 for c in count.values())
+
+    def _split_if(self, st: ast.If, rest, env, fr, pc) -> bool:
+        fi = fr.fi
+        cond = self.ev(st.test, env, pc, fi)
+        et, ef = self.refine(st.test, env, pc, fi)
+        pc2 = pc | prov(cond)
+        self._split_depth += 1
+        if fr.loop_if_depth:
+            fr.loop_if_depth[-1] += 1
+        try:
+            tt = self.block(list(st.body) + list(rest), et, fr, pc2)
+            tf = self.block(list(st.orelse) + list(rest), ef, fr, pc2)
+        finally:
+            self._split_depth -= 1
+            if fr.loop_if_depth:
+                fr.loop_if_depth[-1] -= 1
+        if tt and tf:
+            return True
+        env.clear()
+        if not tt:
+            self._merge_env(env, et)
+        if not tf:
+            self._merge_env(env, ef)
         return False
 
     def _table_cases(self, st, env, fi):
@@ -325,6 +376,8 @@ class HeapInterp:
             return False
         if isinstance(st, ast.If):
             cond = self.ev(st.test, env, pc, fi)      # walrus targets are bound in env
+            if cond.kind == "const" and not cond.t and isinstance(cond.val, bool):
+                return self.block(st.body if cond.val else st.orelse, env, fr, pc)      # decided by constants alone
             et, ef = self.refine(st.test, env, pc, fi)
             pc2 = pc | prov(cond)
             if fr.loop_if_depth:
@@ -359,6 +412,7 @@ class HeapInterp:
             pc2 = pc | frozenset(x for x in it.t if x != ZERO) | (it.keyt if it.kind == "map" else E)
             fr.loop_vars.append({n.id for n in ast.walk(st.target) if isinstance(n, ast.Name)})
             fr.loop_if_depth.append(0)
+            self._widen_counters(st, env)
             try:
                 for el in elems:
                     for _ in range(2):
@@ -380,6 +434,7 @@ class HeapInterp:
                 return t
             return False
         if isinstance(st, ast.While):
+            self._widen_counters(st, env)
             fr.loop_vars.append(set())
             fr.loop_if_depth.append(0)
             try:
@@ -425,6 +480,18 @@ class HeapInterp:
         if isinstance(st, (ast.FunctionDef, ast.ClassDef, ast.Import, ast.ImportFrom, ast.Global, ast.Nonlocal)):
             return False
         raise AnalysisError(f"reader interpreter: statement {type(st).__name__} at {fi.loc(st)} not supported")
+
+    def _widen_counters(self, loop, env):
+        """a number that the loop body advances (i += 1, i = i + k) is not the constant it starts from"""
+        for n in ast.walk(ast.Module(loop.body, [])):
+            name = None
+            if isinstance(n, ast.AugAssign) and isinstance(n.target, ast.Name):
+                name = n.target.id
+            elif isinstance(n, ast.Assign) and len(n.targets) == 1 and isinstance(n.targets[0], ast.Name) and \
+                    any(isinstance(x, ast.Name) and x.id == n.targets[0].id for x in ast.walk(n.value)):
+                name = n.targets[0].id
+            if name and name in env and env[name].kind == "const" and isinstance(env[name].val, (int, float)) and not isinstance(env[name].val, bool):
+                env[name] = scalar(env[name].t | {ZERO})
 
     def _merge_env(self, env, other):
         for k, v in other.items():
@@ -547,6 +614,15 @@ class HeapInterp:
         return m.elem
 
     def merge_into(self, rec: Obj, other: Obj, fr: Frame, st, pc=E):
+        if other.kind == "list":
+            # an iterable of (key, value) pairs
+            el = other.elem
+            if el is None:
+                return
+            if el.kind == "tuple" and el.items is not None and len(el.items) == 2:
+                self.store(rec, el.items[0], with_t(el.items[1], pc), fr, st)
+                return
+            raise AnalysisError(f"reader interpreter: dict update from a sequence whose elements are not pairs at {fr.fi.loc(st)}")
         if rec.kind == "emptydict":
             rec.kind = "rec" if other.kind in ("rec", "emptydict") else "map"
         if other.kind == "rec":
@@ -792,7 +868,21 @@ class HeapInterp:
         raise AnalysisError(f"reader interpreter: unbound name {e.id} at {fi.loc(e)}")
 
     def e_Tuple(self, e, env, pc, fi):
-        return self.mktuple(self.ev(x, env, pc, fi) for x in e.elts)
+        items = []
+        for x in e.elts:
+            if isinstance(x, ast.Starred):
+                v = self.ev(x.value, env, pc, fi)
+                if v.kind == "tuple" and v.items is not None:
+                    items.extend(v.items)
+                    continue
+                # unknown length: the tuple degrades to a sequence of the join of its parts
+                o = Obj("list", site=id(e))
+                for y in e.elts:
+                    w = self.ev(y.value if isinstance(y, ast.Starred) else y, env, pc, fi)
+                    o.elem = joinv(o.elem, w.elem if isinstance(y, ast.Starred) and w.kind == "list" and w.elem is not None else w)
+                return o
+            items.append(self.ev(x, env, pc, fi))
+        return self.mktuple(items)
 
     def e_List(self, e, env, pc, fi):
         o = Obj("list", site=id(e))
@@ -887,6 +977,8 @@ class HeapInterp:
         for x in e.values:
             v = self.ev(x, cur, pc, fi)
             r = joinv(r, v)
+            if v.kind == "const" and not prov(v) and isinstance(v.val, (bool, int, str, type(None))) and bool(v.val) == isinstance(e.op, ast.Or):
+                break       # short circuit on a constant operand: the remaining operands are not evaluated
             if isinstance(e.op, ast.And):
                 cur, _ = self.refine(x, cur, pc, fi)
             else:
@@ -898,7 +990,12 @@ class HeapInterp:
         return r
 
     def e_Compare(self, e, env, pc, fi):
-        t = set(prov(self.ev(e.left, env, pc, fi)))
+        left = self.ev(e.left, env, pc, fi)
+        if len(e.ops) == 1 and isinstance(e.ops[0], (ast.Eq, ast.NotEq)) and left.kind == "const" and not left.t:
+            right = self.ev(e.comparators[0], env, pc, fi)
+            if right.kind == "const" and not right.t and isinstance(left.val, (str, int, bool, type(None))) and isinstance(right.val, (str, int, bool, type(None))):
+                return Obj("const", E, (left.val == right.val) == isinstance(e.ops[0], ast.Eq))
+        t = set(prov(left))
         for op, c in zip(e.ops, e.comparators):
             v = self.ev(c, env, pc, fi)
             if isinstance(op, (ast.In, ast.NotIn)) and v.kind in ("map", "rec", "emptydict", "list", "tuple"):
@@ -950,6 +1047,7 @@ class HeapInterp:
                 o = Obj("list")
                 o.elem = b.elem
                 o.t = b.t           # which rows are selected is structure, not value provenance
+                o.val = "lines" if b.val == "lines" else None
                 return o
             if b.kind == "tuple":
                 o = Obj("list")
@@ -990,7 +1088,8 @@ class HeapInterp:
             return b.elem
         if b.kind == "list":
             el = b.elem if b.elem is not None else scalar()
-            what = "@part" if b.val == "split" else "@idx"
+            # selecting a line of the input line list is a different thing from selecting a token of a line
+            what = "@part" if b.val == "split" else "@line" if b.val == "lines" else "@idx"
             lab = f"{what}[{k.val}]" if k.kind == "const" else f"{what}[{norm(e.slice)}]"
             if el.kind in ("str", "scalar", "const"):
                 return with_t(el, kp | b.t | {lab})
@@ -1163,6 +1262,7 @@ class HeapInterp:
                 o = Obj("list", site=id(e))
                 o.elem = src.elem
                 o.t = src.t
+                o.val = "lines" if src.val == "lines" and name != "sorted" else None
                 return o
             o = Obj("list", site=id(e))
             for el in self.iter_elems(src):
@@ -1222,6 +1322,7 @@ class HeapInterp:
                 return Obj("list", site=id(e))
             o = Obj("list", site=id(e))
             o.elem = a[0].elem if a[0].kind == "list" else joinall(self.iter_elems(a[0]))
+            o.val = "lines" if a[0].kind == "list" and a[0].val == "lines" else None
             return o
         if q.startswith("re."):
             if q == "re.compile":
@@ -1390,7 +1491,7 @@ class HeapInterp:
             if name in ("pop", "popleft"):
                 return recv.elem if recv.elem is not None else scalar()
             if name in ("copy",):
-                o = Obj("list"); o.elem = recv.elem; return o
+                o = Obj("list"); o.elem = recv.elem; o.val = "lines" if recv.val == "lines" else None; return o
             if name in ("sort", "reverse", "clear", "remove"):
                 return NONE()
             if name in ("index", "count"):
@@ -1407,6 +1508,7 @@ class HeapInterp:
             if name in ("readlines", "splitlines"):
                 o = Obj("list")
                 o.elem = string(E)
+                o.val = "lines"
                 return o
             return string(E)
         if k == "path":
